@@ -176,7 +176,10 @@ let mode_util casefile =
   List.iteri (fun i line ->
       Printf.printf "#BEGIN %d\n%!" i;
       let words = List.filter (fun w -> w <> "") (String.split_on_char ' ' line) in
-      let words = (match words with "EP" :: w :: h :: _pad :: px -> "E" :: w :: h :: px | _ -> words) in
+      let words = (match words with
+                   | "EP" :: w :: h :: _pad :: px -> "E" :: w :: h :: px
+                   | "IP" :: path :: failure :: transparent :: w :: h :: _pad :: px -> "I" :: path :: failure :: transparent :: w :: h :: px
+                   | _ -> words) in
       (match words with
        | "E" :: w :: h :: px ->
            let img = { uw = z_of_int (int_of_string w); uh = z_of_int (int_of_string h);
